@@ -9,6 +9,7 @@ import (
 	"bytes"
 	"context"
 	"crypto/sha256"
+	"database/sql"
 	"encoding/hex"
 	"errors"
 	"fmt"
@@ -21,6 +22,7 @@ import (
 	"sort"
 	"strings"
 	"sync"
+	"sync/atomic"
 	"testing"
 	"testing/synctest"
 	"time"
@@ -146,6 +148,10 @@ type CallRec struct {
 	UserIdx  int
 	T        time.Time
 	Abandond bool
+	// CreateAuthRequest only: the registration of the persisted request's issuer at the moment of the persist (registry model)
+	IssuerSP    int // -2: no such registration
+	IssuerSPVer int
+	IssuerSPCfg *SPCfg
 }
 
 // task states
@@ -183,10 +189,11 @@ type Task struct {
 	FaultFired               []string // failure-type faults injected into this task (not stalls)
 	Overlapped               bool     // ran in an overlap window (race mode)
 	Recovery                 bool
-	Conformant               bool // generated without any deviation, tamper or fault
-	InFaultEra               bool // sent before Heal
-	AdvDuring                bool // clock advanced while this task was in flight
-	RespKeyVer0, RespKeyVer1 int  // response signing key version current at invoke / at return
+	Conformant               bool  // generated without any deviation, tamper or fault
+	InFaultEra               bool  // sent before Heal
+	AdvDuring                bool  // clock advanced while this task was in flight
+	SPVers0                  []int // registration version of every SP at invoke
+	RespKeyVer0, RespKeyVer1 int   // response signing key version current at invoke / at return
 	MetaKeyVer0, MetaKeyVer1 int
 }
 
@@ -429,6 +436,7 @@ func Run(t *testing.T, plan *Plan) (res *Result) {
 	runtime.GC()
 	defer debug.SetGCPercent(oldGC)
 	res = &Result{Plan: plan}
+	startRealTick()
 	func() {
 		defer func() {
 			// synctest panics on a deadlocked bubble; that is a harness error, never a violation.
@@ -712,7 +720,7 @@ func (w *World) step(s *Step) {
 			}
 		}
 		w.resumeTask(t, s.Fault)
-		synctest.Wait()
+		w.settle()
 	case "finish":
 		ps := w.parked()
 		if len(ps) == 0 {
@@ -740,14 +748,35 @@ func (w *World) step(s *Step) {
 				break
 			}
 			w.resumeTask(t, "")
-			synctest.Wait()
+			w.settle()
+		}
+	case "until":
+		// run one task up to (not into) its next call of s.Op; it stops earlier when it finishes or blocks inside the library
+		for guard := 0; guard < 16; guard++ {
+			var t *Task
+			for _, x := range w.parked() {
+				if x.ID == s.Pick {
+					t = x
+				}
+			}
+			if t == nil {
+				if guard == 0 {
+					w.noop("until: task not parked")
+				}
+				return
+			}
+			if t.parkedOp == s.Op {
+				return
+			}
+			w.resumeTask(t, "")
+			w.settle()
 		}
 	case "pair":
 		ps := w.parked()
 		if len(ps) < 2 {
 			if len(ps) == 1 {
 				w.resumeTask(ps[0], "")
-				synctest.Wait()
+				w.settle()
 				return
 			}
 			w.noop("pair: nothing parked")
@@ -765,14 +794,14 @@ func (w *World) step(s *Step) {
 		if w.mode != "race" {
 			// serial mode keeps the run a pure function of the plan: the two segments run one after the other
 			w.resumeTask(ps[a], "")
-			synctest.Wait()
+			w.settle()
 			w.resumeTask(ps[b], "")
-			synctest.Wait()
+			w.settle()
 			return
 		}
 		w.resumeTask(ps[a], "")
 		w.resumeTask(ps[b], "")
-		synctest.Wait()
+		w.settle()
 	case "advance":
 		if s.Ns <= 0 {
 			w.noop("advance 0")
@@ -816,6 +845,113 @@ func (w *World) step(s *Step) {
 	}
 }
 
+// ---------------------------------------------------------------------------
+// quiescence
+
+// realTick is advanced by a goroutine outside every bubble about every 500 µs of real time; it only paces the (rare)
+// goroutine-state scans of settle and never influences a decision.
+var (
+	realTick     atomic.Int64
+	realTickOnce sync.Once
+)
+
+func startRealTick() {
+	realTickOnce.Do(func() {
+		go func() {
+			for {
+				time.Sleep(500 * time.Microsecond)
+				realTick.Add(1)
+			}
+		}()
+	})
+}
+
+func (w *World) runningTasks() int {
+	w.mu.Lock()
+	defer w.mu.Unlock()
+	n := 0
+	for _, t := range w.tasks {
+		if t.state == tsRunning {
+			n++
+		}
+	}
+	return n
+}
+
+// settle returns when no task can make progress any more. Normally that is synctest.Wait(): every task is parked at a seam
+// (or has finished) and therefore durably blocked. A library that holds a sync.Mutex across a storage call makes a second
+// request block on that mutex while the first is parked inside the call; a mutex wait is not a durable block, so
+// synctest.Wait() would never return. In that case the goroutine states of the bubble are inspected: the world is quiescent
+// when every other goroutine of the bubble is blocked durably or on a sync lock.
+func (w *World) settle() {
+	start := realTick.Load()
+	for {
+		runtime.Gosched()
+		if w.runningTasks() == 0 {
+			synctest.Wait()
+			return
+		}
+		if realTick.Load()-start < 2 {
+			continue
+		}
+		start = realTick.Load()
+		quiet, lockWaiters := bubbleQuiescent()
+		if !quiet {
+			continue
+		}
+		if lockWaiters == 0 {
+			synctest.Wait() // tasks blocked inside the library on channels / conds: durable, exact
+			return
+		}
+		w.probe("task_blocked_on_library_lock")
+		return
+	}
+}
+
+var stackBuf = make([]byte, 1<<20)
+
+// bubbleQuiescent inspects the goroutine headers of a full stack dump: quiet = no goroutine of a synctest bubble other than
+// the caller is running or runnable; lockWaiters = how many of them wait for a sync.Mutex / sync.RWMutex.
+func bubbleQuiescent() (quiet bool, lockWaiters int) {
+	n := runtime.Stack(stackBuf, true)
+	for n == len(stackBuf) {
+		stackBuf = make([]byte, 2*len(stackBuf))
+		n = runtime.Stack(stackBuf, true)
+	}
+	quiet = true
+	first := true
+	for _, blk := range bytes.Split(stackBuf[:n], []byte("\n\n")) {
+		if !bytes.HasPrefix(blk, []byte("goroutine ")) {
+			continue
+		}
+		if first {
+			first = false // the caller itself
+			continue
+		}
+		nl := bytes.IndexByte(blk, '\n')
+		if nl < 0 {
+			nl = len(blk)
+		}
+		hdr := string(blk[:nl])
+		if !strings.Contains(hdr, "synctest bubble") {
+			continue
+		}
+		lb, rb := strings.IndexByte(hdr, '['), strings.LastIndexByte(hdr, ']')
+		if lb < 0 || rb < lb {
+			continue
+		}
+		state := hdr[lb+1 : rb]
+		switch {
+		case strings.Contains(state, "(durable)"):
+		case strings.HasPrefix(state, "sync.Mutex.Lock"), strings.HasPrefix(state, "sync.RWMutex."):
+			lockWaiters++
+		default:
+			quiet = false
+		}
+	}
+	return quiet, lockWaiters
+}
+
 func (w *World) resumeTask(t *Task, fault string) {
 	w.hist.add("resume", t.ID, t.parkedOp+" fault="+fault)
 	// mark as running before handing over so a second resume in the same step cannot pick it again
@@ -833,7 +969,7 @@ func (w *World) drain() {
 			return
 		}
 		w.resumeTask(ps[0], "")
-		synctest.Wait()
+		w.settle()
 	}
 	panic("drain did not terminate")
 }
@@ -895,7 +1031,17 @@ func (w *World) mutate(s *Step) {
 		cfg := n.Cfg
 		cfg.ACS = append([]ACSCfg(nil), cfg.ACS...)
 		cfg.SLO = append([]SLOCfg(nil), cfg.SLO...)
-		switch mod(s.B, 5) {
+		switch mod(s.B, 7) {
+		case 5:
+			// the SP moves to bindings this IdP cannot serve
+			for i := range cfg.ACS {
+				cfg.ACS[i].Binding = BindArtifact
+			}
+		case 6:
+			// … or (back) to a single plain POST endpoint
+			if len(cfg.ACS) > 0 {
+				cfg.ACS = []ACSCfg{{Binding: BindPost, Index: "0", URL: bumpURL(cfg.ACS[0].URL)}}
+			}
 		case 0:
 			if cfg.Key == KeySPRot {
 				cfg.Key = KeySP0 + mod(n.Idx, 4)
@@ -956,7 +1102,12 @@ func bumpURL(u string) string {
 	return base + "/v2"
 }
 
-func isXSTrue(s string) bool { return s == "true" || s == "1" }
+// isXSTrue: the lexical forms of xs:boolean true; the type's whiteSpace facet is "collapse", so surrounding XML white space
+// does not count. "True", "TRUE", "T", "yes" … are not xs:boolean values at all and therefore declare nothing.
+func isXSTrue(s string) bool {
+	s = strings.Trim(s, " \t\r\n")
+	return s == "true" || s == "1"
+}
 
 // send creates a request task on a replica; it runs until its first seam.
 func (w *World) send(m *MsgSpec) *Task {
@@ -991,6 +1142,9 @@ func (w *World) send(m *MsgSpec) *Task {
 	}
 	req = req.WithContext(context.WithValue(req.Context(), taskKey{}, t))
 	t.TInvoke = time.Now()
+	for _, n := range w.sps {
+		t.SPVers0 = append(t.SPVers0, n.Version)
+	}
 	t.RespKeyVer0, t.MetaKeyVer0 = w.respKeyVer, w.metaKeyVer
 	t.SeqInvoke = w.hist.add("invoke", t.ID, fmt.Sprintf("%s sp=%d replica=%d %s", m.Kind, m.SP, ri, sent.Summary))
 	h := w.replicas[ri].Prov.HttpHandler()
@@ -1011,7 +1165,7 @@ func (w *World) send(m *MsgSpec) *Task {
 		}()
 		h.ServeHTTP(t.Writer, req)
 	}()
-	synctest.Wait()
+	w.settle()
 	return t
 }
 
@@ -1139,7 +1293,23 @@ func (s *simStorage) leave(t *Task, rec *CallRec) {
 	s.w.mu.Unlock()
 }
 
-func isErrFault(f string) bool { return f == "err" || f == "abandoned" }
+func isErrFault(f string) bool { return f == "err" || f == "abandoned" || strings.HasPrefix(f, "err_") }
+
+// injectedErr: the error value a failing storage call returns. Which value a storage returns is its own business (a
+// cancelled or timed-out context, a driver's "no rows", a broken connection); the library must fail closed on all of them.
+func injectedErr(fault string) error {
+	switch fault {
+	case "err_canceled":
+		return context.Canceled
+	case "err_deadline":
+		return fmt.Errorf("sim: storage call: %w", context.DeadlineExceeded)
+	case "err_notfound":
+		return fmt.Errorf("sim: lookup: %w", sql.ErrNoRows)
+	case "err_eof":
+		return io.ErrUnexpectedEOF
+	}
+	return errInjected
+}
 
 // partial: a user-info call that writes some attributes and then fails.
 func (w *World) partialUser(u *UserCfg, set models.AttributeSetter) {
@@ -1160,7 +1330,7 @@ func normFault(op, fault string) string {
 	switch fault {
 	case "", "none":
 		return ""
-	case "err", "abandoned":
+	case "err", "abandoned", "err_canceled", "err_deadline", "err_notfound", "err_eof":
 		return fault
 	}
 	if (op == "SetUserinfoWithUserID" || op == "SetUserinfoWithLoginName") && fault == "partial_err" {
@@ -1179,8 +1349,8 @@ func (s *simStorage) GetCA(ctx context.Context) (*key.CertificateAndKey, error) 
 	t, rec, fault := s.enter(ctx, "GetCA")
 	defer s.leave(t, rec)
 	if isErrFault(fault) {
-		rec.Err = errInjected.Error()
-		return nil, errInjected
+		rec.Err = injectedErr(fault).Error()
+		return nil, injectedErr(fault)
 	}
 	kp := Keys[KeyIDPMeta0]
 	return &key.CertificateAndKey{Certificate: kp.CertDER, Key: kp.Key}, nil
@@ -1188,9 +1358,9 @@ func (s *simStorage) GetCA(ctx context.Context) (*key.CertificateAndKey, error) 
 
 func (s *simStorage) keyResult(rec *CallRec, fault string, kp *KeyPair) (*key.CertificateAndKey, error) {
 	switch fault {
-	case "err", "abandoned":
-		rec.Err = errInjected.Error()
-		return nil, errInjected
+	case "err", "abandoned", "err_canceled", "err_deadline", "err_notfound", "err_eof":
+		rec.Err = injectedErr(fault).Error()
+		return nil, injectedErr(fault)
 	case "nil_record":
 		rec.Ret = "nil"
 		return nil, nil
@@ -1235,13 +1405,19 @@ func (s *simStorage) GetEntityByID(ctx context.Context, entityID string) (*servi
 	t, rec, fault := s.enter(ctx, "GetEntityByID", entityID)
 	defer s.leave(t, rec)
 	if isErrFault(fault) {
-		rec.Err = errInjected.Error()
-		return nil, errInjected
+		rec.Err = injectedErr(fault).Error()
+		return nil, injectedErr(fault)
 	}
 	s.w.mu.Lock()
 	n := s.w.byEntity[entityID]
 	s.w.mu.Unlock()
 	if n == nil || n.Obj == nil {
+		if s.w.cfg.NilUnknown {
+			// a storage that reports "no such row" as a nil record without an error
+			rec.Ret = "nil"
+			s.w.fire("storage_unknown_sp_as_nil")
+			return nil, nil
+		}
 		rec.Err = "not found"
 		return nil, fmt.Errorf("sim: no service provider registered for entityID")
 	}
@@ -1265,8 +1441,8 @@ func (s *simStorage) GetEntityIDByAppID(ctx context.Context, appID string) (stri
 	t, rec, fault := s.enter(ctx, "GetEntityIDByAppID", appID)
 	defer s.leave(t, rec)
 	if isErrFault(fault) {
-		rec.Err = errInjected.Error()
-		return "", errInjected
+		rec.Err = injectedErr(fault).Error()
+		return "", injectedErr(fault)
 	}
 	s.w.mu.Lock()
 	ent, ok := s.w.appToEnt[appID]
@@ -1293,8 +1469,8 @@ func (s *simStorage) CreateAuthRequest(ctx context.Context, req *samlp.AuthnRequ
 	t, rec, fault := s.enter(ctx, "CreateAuthRequest", id, acsURL, binding, relayState, appID)
 	defer s.leave(t, rec)
 	if isErrFault(fault) {
-		rec.Err = errInjected.Error()
-		return nil, errInjected
+		rec.Err = injectedErr(fault).Error()
+		return nil, injectedErr(fault)
 	}
 	s.w.mu.Lock()
 	se := &Session{Idx: len(s.w.sessions), AuthRequestID: id, RelayState: relayState, ACS: acsURL, Binding: binding,
@@ -1306,6 +1482,11 @@ func (s *simStorage) CreateAuthRequest(ctx context.Context, req *samlp.AuthnRequ
 		if n.Cfg.AppID == appID {
 			se.SP = n.Idx
 		}
+	}
+	rec.IssuerSP = -2
+	if n := s.w.byEntity[issuer]; n != nil && n.Obj != nil {
+		c := n.Cfg
+		rec.IssuerSP, rec.IssuerSPVer, rec.IssuerSPCfg = n.Idx, n.Version, &c
 	}
 	se.ID = s.w.sessionID(se.Idx)
 	s.w.sessions = append(s.w.sessions, se)
@@ -1320,8 +1501,8 @@ func (s *simStorage) AuthRequestByID(ctx context.Context, id string) (models.Aut
 	t, rec, fault := s.enter(ctx, "AuthRequestByID", id)
 	defer s.leave(t, rec)
 	if isErrFault(fault) {
-		rec.Err = errInjected.Error()
-		return nil, errInjected
+		rec.Err = injectedErr(fault).Error()
+		return nil, injectedErr(fault)
 	}
 	s.w.mu.Lock()
 	var found *Session
@@ -1372,8 +1553,8 @@ func (s *simStorage) SetUserinfoWithUserID(ctx context.Context, applicationID st
 	t, rec, fault := s.enter(ctx, "SetUserinfoWithUserID", applicationID, userID)
 	defer s.leave(t, rec)
 	if isErrFault(fault) {
-		rec.Err = errInjected.Error()
-		return errInjected
+		rec.Err = injectedErr(fault).Error()
+		return injectedErr(fault)
 	}
 	for i := range s.w.cfg.Users {
 		if s.w.cfg.Users[i].ID == userID && fault == "partial_err" {
@@ -1397,8 +1578,8 @@ func (s *simStorage) SetUserinfoWithLoginName(ctx context.Context, userinfo mode
 	t, rec, fault := s.enter(ctx, "SetUserinfoWithLoginName", loginName)
 	defer s.leave(t, rec)
 	if isErrFault(fault) {
-		rec.Err = errInjected.Error()
-		return errInjected
+		rec.Err = injectedErr(fault).Error()
+		return injectedErr(fault)
 	}
 	for i := range s.w.cfg.Users {
 		if s.w.cfg.Users[i].LoginName == loginName && fault == "partial_err" {
@@ -1422,8 +1603,8 @@ func (s *simStorage) Health(ctx context.Context) error {
 	t, rec, fault := s.enter(ctx, "Health")
 	defer s.leave(t, rec)
 	if isErrFault(fault) || !s.w.healthy {
-		rec.Err = errInjected.Error()
-		return errInjected
+		rec.Err = injectedErr(fault).Error()
+		return injectedErr(fault)
 	}
 	return nil
 }
